@@ -81,3 +81,23 @@ MIN_COUNTS = {
     "save_point_sites": 10,
     "change_point_sites": 8,
 }
+
+
+# --------------------------------------------------------------------------------------------------
+# C07-11  locals that are assigned on some paths only, confirmed by reading to be assigned on every *feasible* path to their uses.
+#   (function fid, variable, reason)            -- anything not listed here is reported
+MAYBE_UNDEFINED_OK = [
+    ("solver.solve_main", "m", "used only when default_growing_method_set_by_user is not None; only the first call of a solve passes that, and there r0_avg_old is None so m = len(r0) was assigned"),
+    ("solver.solve_main", "restart_auto_detect_delta", "assigned and used under the same conjunction params('restarts.use_restarts') and params('restarts.auto_detect'); parameters cannot change during a run"),
+    ("solver.solve_main", "restart_auto_detect_chgJ", "same as restart_auto_detect_delta"),
+    ("trust_region.ctrsbox_sfista", "gnew", "assigned in every iteration of the S-FISTA loop, which runs MAX_LOOP_ITERS >= 1 times: func_tol.max_iters >= 1 by the parameter table (the rule re-checks that lower bound) and the ceil(...) term is positive"),
+    ("trust_region.trsbox", "gredsq", "first CG iteration has beta == 0.0 (initialised before the loop), which assigns gredsq"),
+    ("trust_region.trsbox", "gredsq0", "first CG iteration has iterc == 0 (initialised before the loop), which assigns gredsq0"),
+    ("trust_region.trsbox", "itermax", "assigned together with gredsq when beta == 0.0 (first iteration)"),
+    ("trust_region.trsbox", "ggsav", "read only after an iteration with stplen > 0 and iact None; a non-positive stplen implies iact is set, which restarts the loop before the read"),
+    ("trust_region.alt_trust_step", "rdprev", "assigned whenever isav is set; read only if isav != -1 (Powell's TRSBOX, label 120)"),
+    ("trust_region.alt_trust_step", "rdnext", "read only if isav < iu - 1, i.e. iteration isav + 1 ran and did not raise redmax, which assigns rdnext"),
+    ("trust_region.alt_trust_step", "angt", "assigned in `for i in range(iu)` with iu = int(17*angbd + 3.1) >= 3"),
+    ("trust_region.alt_trust_step", "xsav", "assigned together with iact; read only under `iact is not None`"),
+    ("util.random_orthog_directions_within_bounds", "Q", "assigned when ninactive > 0; read only in loops over range(ninactive)"),
+]
